@@ -2,5 +2,6 @@ SPECIFICATION CredsSpec
 CONSTANTS
     Files <- TraceFiles
     Rows = {}
+    PemLen = 2
 INVARIANTS CredsTypeOK TraceVerdict
 CHECK_DEADLOCK FALSE
